@@ -183,6 +183,8 @@ func (m *valueMaker) leaf(kind string, vc string) reflect.Value {
 				time.Date(2021, 10, 31, 0, 30, 0, 0, time.UTC).In(loc), // 02:30 CEST, the first of the two 02:30s of that night
 				time.Date(2021, 10, 31, 1, 30, 0, 0, time.UTC).In(loc)) // 02:30 CET, the second
 		}
+		// Go's year 0 (1 BC in its astronomical numbering); compact time has no year 0
+		ts = append(ts, time.Date(0, 3, 15, 12, 0, 0, 0, time.UTC))
 		// zones that are an offset and nothing else: what time.Parse makes of "+01:00", time.FixedZone
 		parsed, _ := time.Parse(time.RFC3339, "2020-01-15T13:41:00+01:00")
 		ts = append(ts, parsed, time.Date(2020, 1, 15, 13, 41, 0, 0, time.FixedZone("X", 5400)), time.Date(2020, 1, 15, 13, 41, 0, 0, time.FixedZone("", -34200)),
